@@ -628,6 +628,23 @@ func (pool *TxPool) add(tx *types.Transaction, local bool) (replaced bool, err e
 		invalidTxMeter.Mark(1)
 		return false, err
 	}
+	// An underpriced replacement is refused before any room is made for it: otherwise the transaction
+	// evicted to make room stays evicted although the submission is rejected, or the evicted one is the
+	// competitor itself and the newcomer takes its place without the price bump.
+	if sender, err := types.Sender(pool.signer, tx); err == nil {
+		for _, list := range []*txList{pool.pending[sender], pool.queue[sender]} {
+			if list == nil {
+				continue
+			}
+			if old := list.txs.Get(tx.Nonce()); old != nil {
+				threshold := new(big.Int).Mul(big.NewInt(100+int64(pool.config.PriceBump)), old.GasPrice())
+				threshold.Div(threshold, big.NewInt(100))
+				if old.GasPriceCmp(tx) >= 0 || tx.GasPriceIntCmp(threshold) < 0 {
+					return false, ErrReplaceUnderpriced
+				}
+			}
+		}
+	}
 	// If the transaction pool is full, discard underpriced transactions
 	if uint64(pool.all.Slots()+numSlots(tx)) > pool.config.GlobalSlots+pool.config.GlobalQueue {
 		// If the new transaction is underpriced, don't accept it
